@@ -253,4 +253,35 @@ theorem shared_attribute_breaks :
     have := h "values" 0 (by simp [sharedAugAssign, step, demoObj, demoCompute])
     simp [sharedAugAssign, step, demoObj, demoCompute, upd] at this
 
+/-! ## a lazy read whose evaluation raises
+
+`lazy_property` evaluates `fn(self)` BEFORE it stores anything (`setattr(self, attr_name, fn(self))`):
+when `fn` raises, no `_lazy_<name>` entry is created; lazy properties that were evaluated on the way
+have been stored by their own (successful) reads.  In the model a failing read is therefore a
+sequence of successful reads of other properties followed by no effect at all. -/
+
+/-- the effect of a read of `p` whose evaluation raises after having read the lazy properties `qs` -/
+def failedRead (compute : Name → (Name → Val) → Val) (o : Obj) (qs : List Name) : Obj :=
+  qs.foldl (fun o q => step compute o (.read q)) o
+
+theorem failedRead_coherent (o : Obj) (qs : List Name) (h : Coherent compute o) :
+    Coherent compute (failedRead compute o qs) := by
+  induction qs generalizing o with
+  | nil => exact h
+  | cons q qs ih => exact ih _ (read_coherent o q h)
+
+theorem failedRead_nil (o : Obj) : failedRead compute o [] = o := rfl
+
+/-- the variant that reserves the cache slot before evaluating (a "being evaluated" marker, here the
+value −1 that no evaluation returns) and leaves it behind when the evaluation raises -/
+def failedReadMarker (o : Obj) (p : Name) : Obj :=
+  { o with cache := fun q => if q = p then some (-1) else o.cache q }
+
+theorem failedReadMarker_breaks :
+    Coherent demoCompute demoObj ∧ ¬ Coherent demoCompute (failedReadMarker demoObj "values") := by
+  refine ⟨coherent_of_empty (fun _ => rfl), ?_⟩
+  intro h
+  have := h "values" (-1) (by simp [failedReadMarker])
+  simp [failedReadMarker, demoObj, demoCompute] at this
+
 end Lazy
